@@ -409,6 +409,39 @@ def run_shard(spec, tier, seed):
                                 res.violation(f'C11|{itype}|line-received-other-value', f'{itype}: {raw!r}: line stored {lv!r}, expected from {e1!r}', {'itype': itype, 'text': s, 'mode': mode})
                 if res.evaluations in (1, 200):
                     res.sample({'itype': itype, 'mode': mode, 'text': s, 'outcome': outcome, 'value': repr(value)})
+                # history on the same store: the value that was read is deleted (then: not supplied) or replaced by other text
+                # (then: that text decides) - through the store's own mapping interface, with a second solver
+                if mode == 'file' and outcome == 'value' and n % 5 == 0:
+                    good = [x for x in SEEDS[itype] if model(itype, x)[0] == 'value' and x.strip() != s.strip()]
+                    for step in ('delete', 'replace'):
+                        try:
+                            if step == 'delete':
+                                del store[key]
+                            elif good:
+                                store[key] = good[(n // 5) % len(good)]
+                            else:
+                                continue
+                        except Exception:  # noqa
+                            continue
+                        with trace.Tracer() as t2:
+                            sv2 = S.Solver(store, [cls], prompt=None)
+                            try:
+                                sv2.solve(['c11'], field_names=[f'c11.l_{itype}'])
+                            except BaseException:  # noqa
+                                pass
+                        res.evaluations += 1
+                        res.count('reads_after_' + step)
+                        r2 = [e for e in t2.events if e[0] == 'READ_INPUT' and e[1] == key]
+                        if not r2:
+                            continue
+                        ev2 = r2[-1]
+                        if step == 'delete' and ev2[2] == 'value':
+                            res.violation(f'C11|{itype}|deleted-input-still-read', f'{itype}: {s!r} was read, then deleted from the store; the next read still returned {ev2[3]!r}', {'itype': itype, 'text': s, 'mode': 'read-delete-read', 'shard': spec})
+                        if step == 'replace' and ev2[2] == 'value':
+                            exp2 = model(itype, good[(n // 5) % len(good)])
+                            got2 = getattr(ev2[3], 'name', ev2[3]) if itype in ('enum', 'enum_empty') else ev2[3]
+                            if exp2[0] == 'value' and got2 != exp2[1] and not (isinstance(got2, float) and got2 == exp2[1]):
+                                res.violation(f'C11|{itype}|replaced-input-read-stale', f'{itype}: {s!r} was read, then replaced by {good[(n // 5) % len(good)]!r}; the next read returned {ev2[3]!r}', {'itype': itype, 'text': s, 'mode': 'read-replace-read', 'shard': spec})
     finally:
         uninstall(saved)
     return res
@@ -576,6 +609,19 @@ def run_real(spec, tier, seed, res):
     for p, out, tv in runs:
         if True:
             res.evaluations += 1
+            # a line that read an absent (or rejected) input and nevertheless answered: the "missing" / "invalid" signal was swallowed
+            # and something was used in its place
+            open_reads = {}
+            for ev in tv.events:
+                if ev[0] == 'ATTEMPT_BEGIN':
+                    open_reads[ev[1]] = []
+                elif ev[0] == 'READ_INPUT' and ev[2] in ('missing', 'invalid') and ev[6] in open_reads:
+                    open_reads[ev[6]].append((ev[1], ev[2]))
+                elif ev[0] == 'ATTEMPT_END':
+                    bad = open_reads.pop(ev[1], [])
+                    res.count('real_attempts_checked')
+                    if bad and ev[2] == 'value':
+                        res.violation(f'C11|real|{bad[0][1]}-input-signal-swallowed', f'{year} {ev[1]}: read {bad[0][0]} ({bad[0][1]}) and still answered {ev[3]!r}', realwork.replay_of(p, 'base', spec))
             imap = getattr(out.solver, '_input_map', {})
             for (key, outcome, value, provided, raw, attempt) in tv.input_reads:
                 inp = imap.get(key)
